@@ -687,8 +687,13 @@ Definition proj_of (gen : list (string * skel)) (n : string) (e : skel) : bool :
   same_proj (lookup_or_nil n gen) e.
 
 (* what every variant of the sync layer needs *)
+(* with pending/C15-fix-close-waits-for-distributor the distributor signals its exit *)
+Definition expected_distributeEvents_signalling : skel :=
+  SDefer [SClose "s.distDone"] :: expected_distributeEvents.
+
 Definition tie_common (gen : list (string * skel)) : bool :=
-  full_of gen "Subscriber.distributeEvents" expected_distributeEvents &&
+  (full_of gen "Subscriber.distributeEvents" expected_distributeEvents ||
+   full_of gen "Subscriber.distributeEvents" expected_distributeEvents_signalling) &&
   full_of gen "handler.sendSyncFinishedEvent" expected_sendSyncFinishedEvent &&
   (full_of gen "Subscriber.OnSyncFinished" expected_OnSyncFinished_v0 ||
    full_of gen "Subscriber.OnSyncFinished" expected_OnSyncFinished) &&
